@@ -11,22 +11,45 @@ def H(test, name, q, t, qs=2, ts=16, **kw):
     d.update(kw)
     return d
 
+
+MODEL_ASSUME = [
+    "driver H calls the real handler.handleMessage through an overlay export; hwebsocket.Receive is emulated (undecodable frame / missing timestamp ends the connection) and the real hagall-common scheduler dispatches",
+    "reference model (harness/props/model.go, exec.go) is a reading of the property statements; error codes pinned as in the repository's unit tests, set-valued where several refusal reasons hold",
+    "runs inside a testing/synctest bubble (Go 1.26.8): the sessions' real frame workers tick on a fake clock",
+]
+
+def model(test, q, t, **kw):
+    return {"level": "exploration", "assumptions": MODEL_ASSUME, "parts": [H(test, "H", q, t, hang_is_violation=True, **kw)]}
+
 PROPS = {
-    "C04": {
-        "level": "exploration",
-        "assumptions": [
-            "driver H calls the real handler.handleMessage through an overlay export; hwebsocket.Receive/Dispatch are emulated (timestamp check, type as hagallpb.MsgType)",
-            "reference model written from the property statements; error codes pinned as in the repository's unit tests",
-        ],
-        "parts": [H("TestC04Model", "H", 2500, 25000, hang_is_violation=True)],
-    },
+    "C01": model("TestC01Model", 2500, 20000),
+    "C02": model("TestC02Model", 2500, 20000),
+    "C04": model("TestC04Model", 2500, 25000),
+    "C05": model("TestC05Model", 2500, 15000),
+    "C06": model("TestC06Model", 2500, 12000),
+    "C07": model("TestC07Model", 2000, 10000),
+    "C10": model("TestC10Model", 2500, 10000),
+    "C12": model("TestC12Model", 3000, 25000),
+    "C13": model("TestC13Model", 3000, 25000),
+    "C14": model("TestC14Model", 2500, 15000),
+    "C16": model("TestC16Model", 2500, 15000),
 }
 
+_T = "stateful property-based testing (rapid) against a reference model, handler-level driver in a synctest bubble"
+_N = "Trusted: the reference model as a reading of the property text; hagall-common dispatcher and protobuf codec as given; the handler-level driver bypasses the TCP/WebSocket layer. Sequential histories only in this part."
+def _m(text, ref):
+    return {"text": text + " Exploration level: the property held on every generated history; no claim of absence.", "design_ref": ref, "note": _N, "technique": _T}
+
 META = {
-    "C04": {
-        "text": "Model-based property test: rapid-generated request histories (all 20+ request kinds, valid/zero/unknown/foreign ids, absent sub-messages, joined and not-joined connections) are run against the real handlers; after every step the requester's inbox must hold exactly one answer of the defined type/code, nobody else anything unexpected, and the server state (read through exported API) must equal the reference model - so a refused request provably changed nothing. Exploration level: held on every generated history, no claim of absence.",
-        "design_ref": "DESIGN.md 2.1-2.4, 4 (C04)",
-        "note": "Trusted: the reference model (harness/props/model.go, exec.go) as a reading of the property text; hagall-common dispatcher and protobuf codec as given; handler-level driver bypasses the TCP/WebSocket layer (covered by the wire driver parts).",
-        "technique": "stateful property-based testing (rapid) against a reference model, handler-level driver in a synctest bubble",
-    },
+    "C01": _m("Every connection's replica (built from SESSION_STATE/VIKJA_STATE/ODAL_STATE, updated by each broadcast in arrival order, and by its own accepted requests) is compared after every step with the reference model, which is itself compared with the server's state read through exported API; every broadcast must be applicable to the replica it reaches; every joiner's snapshot must equal the model.", "DESIGN.md 2.2-2.3, 4 (C01)"),
+    "C02": _m("For every accepted change the model computes the exact recipient set; each recipient's inbox must hold exactly one matching relay (ids, body, origin timestamp), the sender and non-members none, and nothing may be left over anywhere after the step - which also fixes per-sender order in sequential histories.", "DESIGN.md 4 (C02)"),
+    "C04": _m("After every step the requester's inbox must hold exactly one answer of the defined type / an error code from the acceptable set, nobody else anything unexpected, and the server state must equal the model - so a refused request provably changed nothing; requests from connections in no session may only be answered with an error, dropped, or end the connection.", "DESIGN.md 2.1-2.4, 4 (C04)"),
+    "C05": _m("Histories biased to foreign delete / pose / asset attempts, including by participants that joined after the owner left; the model refuses them and the inbox, replica and server-state comparisons show nothing changed; every participant id returned by a join must be new for its session.", "DESIGN.md 4 (C05)"),
+    "C06": _m("Departures by close, handler error, frame without timestamp and session switch: the remaining members must receive exactly one delete per removed entity and one leave; server state afterwards holds exactly the persistent entities with their attachments; later joiners are handed them.", "DESIGN.md 4 (C06)"),
+    "C07": _m("Join/switch/close cycles over many sessions with id reuse: after every step id resolution for live and ended sessions, UUID freshness, the session_count gauge (prometheus default gatherer) and the number of frame-worker goroutines are compared with the model. Sequential part only; the concurrent clause needs the scheduled driver.", "DESIGN.md 4 (C07)"),
+    "C10": _m("History invariants kept by the model: no two live sessions share an id, participant/entity/asset-instance ids returned by the server were never returned before in that session, type ids and names stay a bijection, re-registration returns the same id.", "DESIGN.md 4 (C10)"),
+    "C12": _m("Component requests with ids that exist, never existed or no longer exist are checked against a map model: add/update/delete outcomes and codes, list contents, cascades through entity removal and owner departure, name/id lookups, and that an update of an absent component reaches nobody.", "DESIGN.md 4 (C12)"),
+    "C13": _m("The model computes from the whole subscribe/unsubscribe/join/leave history who must be notified of each component add, update and delete; inboxes must match exactly (leftover messages are violations).", "DESIGN.md 4 (C13)"),
+    "C14": _m("Custom messages with bodies around the 10240-byte limit and recipient lists over members, strangers, departed ids, duplicates and the sender: exact recipient set, byte-identical body, sender's participant id, exactly one TOO_LARGE error and no delivery above the limit.", "DESIGN.md 4 (C14)"),
+    "C16": _m("vikja+odal histories with equal, decreasing, zero, negative and far-future action timestamps and repeated asset adds: refusal of older actions, replacement and relay of equal/newer ones, fresh asset-instance ids, one asset per entity, and the module state handed to every joiner, all against the model.", "DESIGN.md 4 (C16)"),
 }
